@@ -90,7 +90,7 @@ func queryPairs(calls []real.StoreCall) (pairs map[model.Pair]bool, nBal, nMeta 
 }
 
 func runC10(c *fw.Ctx) {
-	forEachCase(c10Strata(), c.N(30000, 2000000), func(i int, id string, st *stratum, k int) {
+	forEachCase(c10Strata(), c.N(100000, 2000000), func(i int, id string, st *stratum, k int) {
 		if !c.Want(i, id) {
 			return
 		}
